@@ -28,7 +28,7 @@ POOL = [
     "1.5", "0.0", "-2.5", "true", "false",
     '""', '"a"', '"abc"', '"é日本"', '"1"', '" "', "'sym",
     "[]", "[1]", "[1, 2, 3]", "[nil]", "[[1, 2], [3]]", '["a", "b"]',
-    "{}", "{a: 1}", "{_p: 1, b: {c: 2}}", "%{}", "%{1: 2}", '%{"a": 1, [1]: 2}', "%{1: 2, [1]: 3}", "%{1: 2, 3: 4}", "%{[1]: 1, {a: 1}: 2}",
+    "{}", "{a: 1}", "{_p: 1, b: {c: 2}}", "{a: {c: 1}, b: {a: 2}}", "[[1, {b: 2}], {a: [3]}]", "%{}", "%{1: 2}", '%{"a": 1, [1]: 2}', "%{1: 2, [1]: 3}", "%{1: 2, 3: 4}", "%{[1]: 1, {a: 1}: 2}",
     "(1:3)", "(nil:nil)", "(1:10:0)", "(3:1:-1)", '("a":"c")', "(nil:nil:nil)", "(1:nil:2)",
     "{|x| x}", "{|x, y| x + y}", "m{|x| x}", "{|| 1/0}", "{|x| yield x}",
     "<{|x| yield x if x < 3; recur(x + 1)}>.new(0)", "[1, 2]._iter",
@@ -42,7 +42,9 @@ INTS = ["7", "64", "127", "128", "129", "255", "256", "257", "1023", "1024", "10
         "2147483647", "2147483648", "-2147483648", "-2147483649", "4294967296", "9007199254740993", "(2 ** 10)", '("ab" * 512).len', "(1 << 16)"]
 SMALL = ["nil", "0", "-1", "2", '"a"', "[1, 2, 3]", "{a: 1}", "(1:3)", "{|x| x}", "Int", "1.5", "%{1: 2}"]
 THIRD = ["nil", "1", "-1", '"b"', "[]", "{|x, y| x}", "{}", "9223372036854775807"]
-KWS = ["", "{base: 2}", "{base: nil}", "{base: 1}", "{base: 0}", "{base: -1}", "{base: 37}", "{base: 63}", "{base: 'a}", "{sep: \"\"}", "{end: nil}", "{private?: nil}", "{end: 1}", "{sep: nil}", "{private?: 1}", "{key: {|x| x}}", "{key: 3}"]
+KWS = ["", "{base: 2}", "{base: nil}", "{base: 1}", "{base: 0}", "{base: -1}", "{base: 37}", "{base: 63}", "{base: 'a}", "{sep: \"\"}", "{end: nil}", "{private?: nil}", "{end: 1}", "{sep: nil}", "{private?: 1}", "{key: {|x| x}}", "{key: 3}", "{key: 'b}", "{key: 'a}", "{key: 0}"]
+# receivers for the keyword-argument family: nested structures in which a key is found on some paths only, text with separators
+KWRECV = ["{a: {c: 1}, b: {a: 2}}", "[[1, {b: 2}], {a: [3]}]", "{b: {b: 1}, a: {b: {a: 2}}}", '"a,b;c d"', "[3, 1, 2]"]
 INFIX = ["+", "-", "*", "/", "//", "%", "**", "==", "!=", "<", "<=", ">", ">=", "<=>", "===", "!==", "&&", "||",
          "<<", ">>", "/&", "/|", "/^", "=>"]
 PREFIX = ["!", "-", "+", "/~", "*", "**"]
@@ -349,7 +351,7 @@ def main(chk):
                         for c in THIRD[:4] if quick else THIRD:
                             add({"mode": "direct", "recv": o["name"], "prop": name, "args": [a, b, c]}, "direct3")
                 for kw in KWS[1:]:
-                    for a in SMALL:
+                    for a in SMALL + KWRECV:
                         add({"mode": "direct", "recv": o["name"], "prop": name, "args": [a], "kw": kw}, "directkw")
             elif typ == "FuncType":
                 nprops_n += 1
